@@ -30,6 +30,17 @@ def allowedCells (ws : List Write) : List String := (ws.filter allowedWrite).map
     every package-level write on the parse / runtime-construction path is allowed. -/
 theorem writesOnParsePath_allowed : ∀ w ∈ writesOnParsePath, allowedWrite w = true := by decide
 
+/-- **Generated side obligation**, wider: the same for *every* package-level write outside `init()`
+    in parser, interpreter, scope, util — also off the parse path (code that parses at run time:
+    imports, string interpolation, the debugger). Mutating method calls on container-like
+    package-level variables (`sync.Pool` Put/Get, `sync.Map` Store/Delete/LoadOrStore, `atomic.Value`
+    Store, container/list, channel send/receive) are writes too: such containers are free of data
+    races but still shared state that can carry information from one parse to another, and the
+    property is purity. None is allowed today. -/
+theorem allWrites_allowed : ∀ w ∈ allWrites, allowedWrite w = true := by decide
+
+example : ¬ (∀ w ∈ [Write.mk "parser.laBufferPool" "parser.LABuffer.release" "call:Put"], allowedWrite w = true) := by decide
+
 /-- The extractor looked at the right code: the entry points exist and the
     functions that carried the defect are on the path it follows. -/
 theorem extractor_probes :
